@@ -35,7 +35,7 @@ impl Property for C03 {
         "cases: an entity (2D/3D surface point, segment, plane, 2D/3D curve, mesh, point cloud with/without normals and colours, directed distance, 2D<->3D lifts) with one or two isometries (rotation uniform in +-pi plus 0, +-pi/2, pi, +-1e-9; any axis; translations up to 1e3) and query points / arc lengths. Oracle: metamorphic - scalars equal, geometric results moved by T (normals only rotated), T then T^-1 restores, T2*T1 equals sequential application. Non-trivial: rotation angle not a multiple of pi/2 and non-zero translation (curves: >=3 vertices). Distinct = distinct canonical JSON."
     }
     fn cases(t: Tier) -> u32 {
-        t.pick(400_000, 10_000_000)
+        t.pick(1_600_000, 10_000_000)
     }
     fn expected_labels() -> Vec<&'static str> {
         vec!["sp2", "sp3", "seg2", "plane", "curve2", "curve3", "mesh", "cloud", "cloud_normals", "cloud_colors", "dist", "lift", "closest_tie"]
